@@ -101,6 +101,8 @@ struct ThreadCtx {
     std::vector<SbEnt> sb;
     uint64_t last_lock_seq = 0;           // global sequence number of this thread's latest mutex acquisition (taken inside the critical section)
     int64_t max_timed_request_ns = 0;     // longest time-out a timed lock operation was asked to wait for (harness clears it)
+    int64_t last_timed_request_ns = 0;    // the time-out of the timed lock operation in progress
+    int64_t timed_out_total_ns = 0;       // sum of the time-outs of the timed lock operations that gave up (each waited its full time-out)
     std::vector<const void*> block_objs;  // mutexes / condvars this thread performed an untimed blocking wait on (harness clears it)
     // fault injection (per thread): the k-th call of maybe_throw() at an enabled site throws
     long throw_at = 0;
@@ -885,6 +887,14 @@ class vm_core {
         if (rt.engine.load(std::memory_order_relaxed) == E_SERIAL && c.vtid >= 0) serial_wake_mutex_waiters(this);
         post(shared ? M_UNLOCK_SH : M_UNLOCK, this);
     }
+    // a timed acquisition that gives up has waited for its whole time-out: the harness can add those up per call
+    bool timed(bool shared, int64_t deadline)
+    {
+        int64_t asked = ctx().last_timed_request_ns;
+        bool ok = acquire(shared, LM_TIMED, deadline);
+        if (!ok) ctx().timed_out_total_ns += asked;
+        return ok;
+    }
     template<class Rep, class Period>
     static int64_t deadline_from(const std::chrono::duration<Rep, Period>& d)
     {
@@ -895,6 +905,7 @@ class vm_core {
         if (ns < 0) ns = 0;
         ThreadCtx& c = ctx();
         if (ns > c.max_timed_request_ns) c.max_timed_request_ns = ns;
+        c.last_timed_request_ns = ns;
         return n + ns;
     }
     template<class Clock, class Dur>
@@ -931,9 +942,9 @@ class verif_timed_mutex: public vrf::vm_core<std::timed_mutex> {
     bool try_lock() { return acquire(false, vrf::LM_TRY, 0); }
     void unlock() { release(false); }
     template<class R, class P>
-    bool try_lock_for(const std::chrono::duration<R, P>& d) { return acquire(false, vrf::LM_TIMED, deadline_from(d)); }
+    bool try_lock_for(const std::chrono::duration<R, P>& d) { return timed(false, deadline_from(d)); }
     template<class C, class D>
-    bool try_lock_until(const std::chrono::time_point<C, D>& tp) { return acquire(false, vrf::LM_TIMED, deadline_from(tp)); }
+    bool try_lock_until(const std::chrono::time_point<C, D>& tp) { return timed(false, deadline_from(tp)); }
 };
 class verif_recursive_mutex: public vrf::vm_core<std::recursive_mutex> {
   public:
@@ -947,9 +958,9 @@ class verif_recursive_timed_mutex: public vrf::vm_core<std::recursive_timed_mute
     bool try_lock() { return acquire(false, vrf::LM_TRY, 0); }
     void unlock() { release(false); }
     template<class R, class P>
-    bool try_lock_for(const std::chrono::duration<R, P>& d) { return acquire(false, vrf::LM_TIMED, deadline_from(d)); }
+    bool try_lock_for(const std::chrono::duration<R, P>& d) { return timed(false, deadline_from(d)); }
     template<class C, class D>
-    bool try_lock_until(const std::chrono::time_point<C, D>& tp) { return acquire(false, vrf::LM_TIMED, deadline_from(tp)); }
+    bool try_lock_until(const std::chrono::time_point<C, D>& tp) { return timed(false, deadline_from(tp)); }
 };
 class verif_shared_mutex: public vrf::vm_core<std::shared_mutex> {
   public:
@@ -969,16 +980,245 @@ class verif_shared_timed_mutex: public vrf::vm_core<std::shared_timed_mutex> {
     bool try_lock_shared() { return acquire(true, vrf::LM_TRY, 0); }
     void unlock_shared() { release(true); }
     template<class R, class P>
-    bool try_lock_for(const std::chrono::duration<R, P>& d) { return acquire(false, vrf::LM_TIMED, deadline_from(d)); }
+    bool try_lock_for(const std::chrono::duration<R, P>& d) { return timed(false, deadline_from(d)); }
     template<class C, class D>
-    bool try_lock_until(const std::chrono::time_point<C, D>& tp) { return acquire(false, vrf::LM_TIMED, deadline_from(tp)); }
+    bool try_lock_until(const std::chrono::time_point<C, D>& tp) { return timed(false, deadline_from(tp)); }
     template<class R, class P>
-    bool try_lock_shared_for(const std::chrono::duration<R, P>& d) { return acquire(true, vrf::LM_TIMED, deadline_from(d)); }
+    bool try_lock_shared_for(const std::chrono::duration<R, P>& d) { return timed(true, deadline_from(d)); }
     template<class C, class D>
-    bool try_lock_shared_until(const std::chrono::time_point<C, D>& tp) { return acquire(true, vrf::LM_TIMED, deadline_from(tp)); }
+    bool try_lock_shared_until(const std::chrono::time_point<C, D>& tp) { return timed(true, deadline_from(tp)); }
 };
 
 // condition variable working on unique_lock<verif_mutex>
+}  // namespace std
+// ------------------------------------------------------------------ lock adaptors for the wrapper mutex types
+// The rewrite below turns the token `mutex` into `verif_mutex` everywhere in the library text, including a call of the member
+// function `unique_lock::mutex()`. std::unique_lock / std::shared_lock are therefore specialised for the wrapper types with a
+// faithful re-implementation that answers to both names.
+namespace vrf {
+template<class M>
+class ul_impl {
+  public:
+    using mutex_type = M;
+    ul_impl() noexcept = default;
+    explicit ul_impl(M& m): m_(&m), owns_(false)
+    {
+        lock();
+    }
+    ul_impl(M& m, std::defer_lock_t) noexcept: m_(&m), owns_(false) {}
+    ul_impl(M& m, std::try_to_lock_t): m_(&m), owns_(m.try_lock()) {}
+    ul_impl(M& m, std::adopt_lock_t) noexcept: m_(&m), owns_(true) {}
+    template<class C, class D>
+    ul_impl(M& m, const std::chrono::time_point<C, D>& tp): m_(&m), owns_(m.try_lock_until(tp))
+    {
+    }
+    template<class R, class P>
+    ul_impl(M& m, const std::chrono::duration<R, P>& d): m_(&m), owns_(m.try_lock_for(d))
+    {
+    }
+    ~ul_impl()
+    {
+        if (owns_) unlock();
+    }
+    ul_impl(const ul_impl&) = delete;
+    ul_impl& operator=(const ul_impl&) = delete;
+    ul_impl(ul_impl&& o) noexcept: m_(o.m_), owns_(o.owns_)
+    {
+        o.m_ = nullptr;
+        o.owns_ = false;
+    }
+    ul_impl& operator=(ul_impl&& o) noexcept
+    {
+        if (owns_) unlock();
+        ul_impl(std::move(o)).swap(*this);
+        o.m_ = nullptr;
+        o.owns_ = false;
+        return *this;
+    }
+    void check_lockable() const
+    {
+        if (!m_) throw std::system_error(std::make_error_code(std::errc::operation_not_permitted));
+        if (owns_) throw std::system_error(std::make_error_code(std::errc::resource_deadlock_would_occur));
+    }
+    void lock()
+    {
+        check_lockable();
+        m_->lock();
+        owns_ = true;
+    }
+    bool try_lock()
+    {
+        check_lockable();
+        owns_ = m_->try_lock();
+        return owns_;
+    }
+    template<class C, class D>
+    bool try_lock_until(const std::chrono::time_point<C, D>& tp)
+    {
+        check_lockable();
+        owns_ = m_->try_lock_until(tp);
+        return owns_;
+    }
+    template<class R, class P>
+    bool try_lock_for(const std::chrono::duration<R, P>& d)
+    {
+        check_lockable();
+        owns_ = m_->try_lock_for(d);
+        return owns_;
+    }
+    void unlock()
+    {
+        if (!owns_) throw std::system_error(std::make_error_code(std::errc::operation_not_permitted));
+        if (m_) {
+            m_->unlock();
+            owns_ = false;
+        }
+    }
+    void swap(ul_impl& o) noexcept
+    {
+        std::swap(m_, o.m_);
+        std::swap(owns_, o.owns_);
+    }
+    M* release() noexcept
+    {
+        M* r = m_;
+        m_ = nullptr;
+        owns_ = false;
+        return r;
+    }
+    bool owns_lock() const noexcept { return owns_; }
+    explicit operator bool() const noexcept { return owns_; }
+    M* mutex() const noexcept { return m_; }
+    M* verif_mutex() const noexcept { return m_; }           // what `.mutex()` reads as after the rewrite
+    M* verif_shared_mutex() const noexcept { return m_; }
+  private:
+    M* m_ = nullptr;
+    bool owns_ = false;
+};
+template<class M>
+class sl_impl {
+  public:
+    using mutex_type = M;
+    sl_impl() noexcept = default;
+    explicit sl_impl(M& m): m_(&m), owns_(true) { m.lock_shared(); }
+    sl_impl(M& m, std::defer_lock_t) noexcept: m_(&m), owns_(false) {}
+    sl_impl(M& m, std::try_to_lock_t): m_(&m), owns_(m.try_lock_shared()) {}
+    sl_impl(M& m, std::adopt_lock_t) noexcept: m_(&m), owns_(true) {}
+    template<class C, class D>
+    sl_impl(M& m, const std::chrono::time_point<C, D>& tp): m_(&m), owns_(m.try_lock_shared_until(tp))
+    {
+    }
+    template<class R, class P>
+    sl_impl(M& m, const std::chrono::duration<R, P>& d): m_(&m), owns_(m.try_lock_shared_for(d))
+    {
+    }
+    ~sl_impl()
+    {
+        if (owns_) m_->unlock_shared();
+    }
+    sl_impl(const sl_impl&) = delete;
+    sl_impl& operator=(const sl_impl&) = delete;
+    sl_impl(sl_impl&& o) noexcept: m_(o.m_), owns_(o.owns_)
+    {
+        o.m_ = nullptr;
+        o.owns_ = false;
+    }
+    sl_impl& operator=(sl_impl&& o) noexcept
+    {
+        sl_impl(std::move(o)).swap(*this);
+        return *this;
+    }
+    void check_lockable() const
+    {
+        if (!m_) throw std::system_error(std::make_error_code(std::errc::operation_not_permitted));
+        if (owns_) throw std::system_error(std::make_error_code(std::errc::resource_deadlock_would_occur));
+    }
+    void lock()
+    {
+        check_lockable();
+        m_->lock_shared();
+        owns_ = true;
+    }
+    bool try_lock()
+    {
+        check_lockable();
+        owns_ = m_->try_lock_shared();
+        return owns_;
+    }
+    template<class R, class P>
+    bool try_lock_for(const std::chrono::duration<R, P>& d)
+    {
+        check_lockable();
+        owns_ = m_->try_lock_shared_for(d);
+        return owns_;
+    }
+    template<class C, class D>
+    bool try_lock_until(const std::chrono::time_point<C, D>& tp)
+    {
+        check_lockable();
+        owns_ = m_->try_lock_shared_until(tp);
+        return owns_;
+    }
+    void unlock()
+    {
+        if (!owns_) throw std::system_error(std::make_error_code(std::errc::resource_deadlock_would_occur));
+        m_->unlock_shared();
+        owns_ = false;
+    }
+    void swap(sl_impl& o) noexcept
+    {
+        std::swap(m_, o.m_);
+        std::swap(owns_, o.owns_);
+    }
+    M* release() noexcept
+    {
+        owns_ = false;
+        M* r = m_;
+        m_ = nullptr;
+        return r;
+    }
+    bool owns_lock() const noexcept { return owns_; }
+    explicit operator bool() const noexcept { return owns_; }
+    M* mutex() const noexcept { return m_; }
+    M* verif_mutex() const noexcept { return m_; }
+    M* verif_shared_mutex() const noexcept { return m_; }
+  private:
+    M* m_ = nullptr;
+    bool owns_ = false;
+};
+}  // namespace vrf
+namespace std {
+#define VRF_UL_SPEC(M)                            \
+    template<>                                    \
+    class unique_lock<M>: public vrf::ul_impl<::std::M> { \
+      public:                                     \
+        using vrf::ul_impl<::std::M>::ul_impl;    \
+        unique_lock() noexcept = default;         \
+        unique_lock(unique_lock&&) noexcept = default; \
+        unique_lock& operator=(unique_lock&&) noexcept = default; \
+    };
+VRF_UL_SPEC(verif_mutex)
+VRF_UL_SPEC(verif_timed_mutex)
+VRF_UL_SPEC(verif_recursive_mutex)
+VRF_UL_SPEC(verif_recursive_timed_mutex)
+VRF_UL_SPEC(verif_shared_mutex)
+VRF_UL_SPEC(verif_shared_timed_mutex)
+#undef VRF_UL_SPEC
+#define VRF_SL_SPEC(M)                            \
+    template<>                                    \
+    class shared_lock<M>: public vrf::sl_impl<::std::M> { \
+      public:                                     \
+        using vrf::sl_impl<::std::M>::sl_impl;    \
+        shared_lock() noexcept = default;         \
+        shared_lock(shared_lock&&) noexcept = default; \
+        shared_lock& operator=(shared_lock&&) noexcept = default; \
+    };
+VRF_SL_SPEC(verif_shared_mutex)
+VRF_SL_SPEC(verif_shared_timed_mutex)
+#undef VRF_SL_SPEC
+}  // namespace std
+
+namespace std {
 class verif_condition_variable {
     std::condition_variable cv_;
     // serial engine: waiters are identified by obj == this in the scheduler table
